@@ -463,6 +463,32 @@ func traceCorpus() []spanBatch {
 	out = append(out, spanBatch{nils: []int{0, 0}})
 	out = append(out, spanBatch{stubs: tracetest.SpanStubs{mk(1, "s1", res1, scA), mk(2, "s2", res3, scA), mk(3, "s3", res1, scA)},
 		resources: []*resource.Resource{res1, res3}, scopes: []instrumentation.Scope{scA}, ri: []int{0, 1, 0}, si: []int{0, 0, 0}, nils: []int{0, 2, 5}})
+	// large per-item collections (just above the SDK's default limits of 128): events, links, attributes of a
+	// span / an event / a link / the resource / the scope
+	big := mk(1, "many-events", res3, scB)
+	for i := 0; i < 130; i++ {
+		big.Events = append(big.Events, tracesdk.Event{Name: "e", Time: time.Unix(0, baseNanos+int64(i))})
+	}
+	big.DroppedEvents = 3
+	bigL := mk(2, "many-links", res3, scB)
+	for i := 0; i < 129; i++ {
+		bigL.Links = append(bigL.Links, tracesdk.Link{SpanContext: trace.NewSpanContext(trace.SpanContextConfig{TraceID: tid, SpanID: trace.SpanID{5, 5, 5, 5, 5, 5, byte(i >> 8), byte(i) | 1}})})
+	}
+	bigA := mk(3, "many-attrs", res3, scB)
+	bigA.Attributes = manyAttrs(130)
+	bigA.Events = []tracesdk.Event{{Name: "ea", Time: time.Unix(0, baseNanos), Attributes: manyAttrs(129)}}
+	bigA.Links = []tracesdk.Link{{SpanContext: trace.NewSpanContext(trace.SpanContextConfig{TraceID: tid, SpanID: trace.SpanID{6, 6, 6, 6, 6, 6, 6, 6}}), Attributes: manyAttrs(129)}}
+	out = append(out, spanBatch{stubs: tracetest.SpanStubs{big, bigL, bigA}, resources: []*resource.Resource{res3}, scopes: []instrumentation.Scope{scB}, ri: []int{0, 0, 0}, si: []int{0, 0, 0}})
+	resBig := resource.NewSchemaless(manyAttrs(130)...)
+	scBig := instrumentation.Scope{Name: "lib/big", Attributes: attribute.NewSet(manyAttrs(129)...)}
+	var manySpans tracetest.SpanStubs
+	var idx []int
+	for i := 0; i < 130; i++ {
+		manySpans = append(manySpans, mk(10+i, "s", resBig, scBig))
+		manySpans[i].SpanContext = trace.NewSpanContext(trace.SpanContextConfig{TraceID: tid, SpanID: trace.SpanID{0, 9, 0, 0, 0, 0, byte(i >> 8), byte(i) | 1}})
+		idx = append(idx, 0)
+	}
+	out = append(out, spanBatch{stubs: manySpans, resources: []*resource.Resource{resBig}, scopes: []instrumentation.Scope{scBig}, ri: idx, si: idx})
 	// status table, parent, dropped-count clamps
 	a := mk(1, "err", res3, instrumentation.Scope{})
 	a.Status = tracesdk.Status{Code: codes.Error, Description: "boom"}
